@@ -167,6 +167,7 @@ def w_unary10 : List Tok := [opTok opTable_v10 "-", nm 1, opTok opTable_v10 "|",
 def w_unary20 : List Tok := [opTok opTable_v20 "-", nm 1, opTok opTable_v20 "|", nm 2]
 def w_plus10 : List Tok := [opTok opTable_v10 "+", nm 1]
 def w_filter10 : List Tok := [opTok opTable_v10 "(", nm 1, .close 0, opTok opTable_v10 "/", nm 2]
+def w_var_step20 : List Tok := [nm 1, opTok opTable_v20 "/", .atom 2 2]
 def w_lookup_path31 : List Tok := [nm 1, opTok opTable_v31 "?", nm 2, opTok opTable_v31 "/", nm 3]
 
 /-- F04b (L3): `n1 = n2 eq n3` is accepted by the 3.1 table; the EBNF ([18] ComparisonExpr, optional
@@ -214,11 +215,18 @@ theorem unary_union_versions :
       some (.bin (opTable_v20.findIdx (·.sym == "|")) (.pre (opTable_v20.findIdx (·.sym == "-")) (.atom 0 1)) (.atom 0 2)) := by
   decide +kernel
 
-/-- F04d: `( n1 ) / n2` is XPath 1.0 ([19] PathExpr ::= FilterExpr '/' RelativeLocationPath) and
-`n1 ? n2 / n3` is XPath 3.1 ([38] StepExpr ::= PostfixExpr, [49] … Lookup); both are rejected. -/
+/-- fixed (1.0 half of F04d, fix by the C01 builder): `( n1 ) / n2` is XPath 1.0 ([19] PathExpr ::= FilterExpr '/'
+RelativeLocationPath); the 1.0 table accepts it and groups it as the reference parser does. -/
+theorem filter_path_v10 :
+    accepts opTable_v10 w_filter10 = true ∧
+    (modelParse opTable_v10 w_filter10).toOption = specParse levels10 false opTable_v10 w_filter10 := by
+  decide +kernel
+
+/-- F04d: `n1 ? n2 / n3` is XPath 3.1 ([38] StepExpr ::= PostfixExpr, [49] … Lookup) and `n1 / $v2` is XPath 2.0
+([29] FilterExpr → [41] VarRef as a step); both are rejected. -/
 theorem f04d_path_operand :
-    (specParse levels10 false opTable_v10 w_filter10).isSome = true ∧ rejects opTable_v10 w_filter10 = true ∧
-    (specParse levels31 true opTable_v31 w_lookup_path31).isSome = true ∧ rejects opTable_v31 w_lookup_path31 = true := by
+    (specParse levels31 true opTable_v31 w_lookup_path31).isSome = true ∧ rejects opTable_v31 w_lookup_path31 = true ∧
+    (specParse levels20 true opTable_v20 w_var_step20).isSome = true ∧ rejects opTable_v20 w_var_step20 = true := by
   decide +kernel
 
 /-- test (literals): `n1 or n2 and n3 = n4 + n5 * - n6 [ 1 ]`: model = reference parser, and it parses -/
